@@ -11,3 +11,4 @@ import StepupModel.Props.C10
 import StepupModel.Props.C11
 import StepupModel.Props.C12
 import StepupModel.Props.C15
+import StepupModel.Props.C19
